@@ -119,6 +119,9 @@ struct Receiver
     // content of the completed packet (for the legacy receiver: the line minus its CRC byte)
     virtual Bytes packet() = 0;
     virtual size_t raw_len() = 0; // bytes currently stored in the line buffer
+    // hand the receiver a new, exactly-sized buffer of `cap` bytes through its setbuf call; the previous
+    // buffer is freed (any later access to it is an ASan fault)
+    virtual void rearm(size_t cap) = 0;
 };
 // make_cfg_receiver(alphabet, cap): gstuff_cfg_impl.h
 std::unique_ptr<Receiver> make_legacy_receiver(size_t cap);                 // gstuff_legacy_shim.cpp
